@@ -110,4 +110,9 @@ theorem C19_cx_same_near_constant : ¬ disjoint1px ⟨73, -86, 53, 66⟩ ⟨73, 
 theorem C19_cx_dagre_child_outside : ¬ encloses1px ⟨244, 307, 432, 126⟩ ⟨86, 337, 62, 66⟩ := by
   unfold encloses1px encloses px Box.right Box.bottom; norm_num
 
+/-- dagre, `direction: left; a: {b: {c}}; f: {g; h}; a.b -> f`: `f.g` starts 6 px above the top of its
+    container `f` (horizontal directions only) -/
+theorem C19_cx_dagre_horizontal_child_above : ¬ encloses1px ⟨20, 46, 114, 272⟩ ⟨50, 40, 54, 66⟩ := by
+  unfold encloses1px encloses px Box.right Box.bottom; norm_num
+
 end D2V.Lay
